@@ -78,26 +78,29 @@ Record mres := mkM { m_ret : strm; m_perm : strm; m_err : option err }.
 (* w: index of the moisture chemical; by_mass = (ID was given): the imass branch with the
    chemical's own MW; otherwise the imol branch with the constant [mwc] = 18.01528.
    strict: None -> True. *)
+(* the transfer between permeate and retentate (everything before the feasibility test) *)
+Definition moisture_shift (mws : vec) (R P : strm) (w : nat) (mc : Q) (by_mass : bool) (mwc : Q) : strm * strm :=
+  let F_mass := fmass mws R in
+  if by_mass then
+    let mw := nthq mws w in
+    let retentate_moisture := nthq (total R) w * mw in
+    let dry_mass := F_mass - retentate_moisture in
+    let moisture := dry_mass * mc / (1 - mc) in
+    let R1 := set_liq R w ((nthq (liq R) w * mw + (moisture - retentate_moisture)) / mw) in
+    let P1 := set_liq P w ((nthq (liq P) w * mw - (moisture - retentate_moisture)) / mw) in
+    (R1, P1)
+  else
+    let retentate_water := nthq (total R) w in
+    let dry_mass := F_mass - mwc * retentate_water in
+    let water := (dry_mass * mc / (1 - mc)) / mwc in
+    let R1 := set_liq R w (nthq (liq R) w + (water - retentate_water)) in
+    let P1 := set_liq P w (nthq (liq P) w - (water - retentate_water)) in
+    (R1, P1).
+
 Definition adjust_moisture (mws : vec) (R P : strm) (w : nat) (mc : Q) (by_mass : bool)
            (mwc : Q) (strict : option bool) : mres :=
-  let F_mass := fmass mws R in
-  if qzerob (1 - mc) then mkM R P (Some EZeroDiv) else
-  let '(R1, P1) :=
-    if by_mass then
-      let mw := nthq mws w in
-      let retentate_moisture := nthq (total R) w * mw in
-      let dry_mass := F_mass - retentate_moisture in
-      let moisture := dry_mass * mc / (1 - mc) in
-      let R1 := set_liq R w ((nthq (liq R) w * mw + (moisture - retentate_moisture)) / mw) in
-      let P1 := set_liq P w ((nthq (liq P) w * mw - (moisture - retentate_moisture)) / mw) in
-      (R1, P1)
-    else
-      let retentate_water := nthq (total R) w in
-      let dry_mass := F_mass - mwc * retentate_water in
-      let water := (dry_mass * mc / (1 - mc)) / mwc in
-      let R1 := set_liq R w (nthq (liq R) w + (water - retentate_water)) in
-      let P1 := set_liq P w (nthq (liq P) w - (water - retentate_water)) in
-      (R1, P1) in
+  if qzerob (1 - mc) then mkM R P (Some EZeroDiv) else      (* mc/(1-mc): ZeroDivisionError *)
+  let '(R1, P1) := moisture_shift mws R P w mc by_mass mwc in
   if qltb (nthq (liq P1) w) 0 then
     if match strict with None => true | Some b => b end
     then mkM R1 P1 (Some EInfeasible)
